@@ -24,6 +24,8 @@ BIN_OPS = ["||", "&&", "==", "!=", "<=", ">=", "<", ">", "|", "^", "&", "+", "-"
 LITERALS = [
     "0", "00", "0_0", "7", "1_000", "123_456_789_012_345_678_901_234_567_890", "0b1", "0B1_01", "0b_1111", "0o17", "0O1_7", "0o_7", "0x1F", "0Xff", "0x_dead_BEEF", "0xFFFF_FFFF_FFFF_FFFF_F",
     "1.5", ".5", "5.", "0.1", "1e3", "1E3", "1e+3", "1e-3", "1.5e-3", "2.5E-2", ".5e1", "5.e-1", "1_0.0_1e+0_1", "12345678901234567890.12345678901234567890123456789", "0.000000000000000000000000000001", "1e-30", "255.0000000000000000000000000001",
+    # long literals: past any chunk size a conversion might use, with and without separators, in every base
+    "1234567890" * 60, "_".join(["123"] * 171), "9" * 511 + "_" + "9" * 90, "0x" + "F0E1" * 200, "0x" + "_".join(["ABCD"] * 140), "0b" + "10" * 400, "0o" + "_".join(["7654"] * 150), "1" + "0" * 700 + ".5", "_".join(["1"] * 300) + "e-300",
     "true", "false", "'a'", '"a"', "''", "'it\\'s'", '"say \\"hi\\""', "'a\\\\b'", "'\\n\\r\\t'", "'\\u0041\\U0001F600'", "'\\u00e9'", "'#not a comment'", '"\'"',
     "{1}", "{1, 2, 3}", "{ 1 ,2 }", "{1.5, 2}", "{true}", "{true, false}", "{'a', 'b'}", "{1, 1, 1}", "{0x10, 16, 1_6}",
 ]
